@@ -305,7 +305,9 @@ def _gen_run(ctx, name, pkg, files, entries, **kw):
     return Run(name, ["./" + pkg], harness, entries, pkg, module_dir=ctx["gen"], undertest="verifgen", module_path="verifgen", **kw)
 
 def _c08_runs(ctx):
-    return [_gen_run(ctx, "constraints", "constraints", [("constraints/zz_verif_c08.go", "harness/gen/constraints/zz_verif_c08.go")], ["VerifC08Validate"]),
+    return [_gen_run(ctx, "constraints", "constraints", [("constraints/zz_verif_c08.go", "harness/gen/constraints/zz_verif_c08.go"),
+                                                         ("constraints/zz_verif_c08_strict.go", "harness/gen/constraints/zz_verif_c08_strict.go")],
+                     ["VerifC08Validate", "VerifC08StrictChild", "VerifC08StrictTop", "VerifC08StrictRoot"]),
             _gen_run(ctx, "validation", "validation", [("validation/zz_verif_c08.go", "harness/gen/validation/zz_verif_c08.go")], ["VerifC08ValidateDashboard"]),
             _gen_run(ctx, "shapes", "shapes", [("shapes/zz_verif_c08.go", "harness/gen/shapes/zz_verif_c08.go")], ["VerifC08ValidateShapes"])]
 
@@ -313,10 +315,14 @@ PROPERTIES["C08"] = {
     "level_text": "Two-stage, bounded symbolic execution + SMT. Stage 1 (concrete): cog's CLI is built from /repo's current tree and the REAL generator emits Go types for the corpus. "
                   "Stage 2 (symbolic): the emitted Validate() methods are executed symbolically on an arbitrary value (ints = bit-vectors of the Go width, the float an IEEE double, strings "
                   "abstract with symbolic rune/byte length, optional pointers and collection lengths forked, map keys over a small alphabet); the solver decides that an error is returned "
-                  "iff the oracle written from the source schema says a constraint is violated, and that exactly the offending paths are reported.",
+                  "iff the oracle written from the source schema says a constraint is violated, and that exactly the offending paths are reported. Strict decoder: the generated "
+                  "UnmarshalJSONStrict methods are executed on a SYMBOLIC JSON TREE (for every declared member a presence choice and a value of any JSON kind - null, bool, integral or "
+                  "fractional number, string, array, object - plus an optional undeclared member; nested objects, arrays and maps of objects likewise); encoding/json.Unmarshal is an engine "
+                  "intrinsic with the documented contract per Go target type; the solver decides reject <=> undeclared member, missing required member, null for a required member, or wrong JSON type.",
     "level_note": "The schema dimension is a finite corpus (corpus/c08/constraints.json: constraints on field, optional field, array item, map value, referenced struct, optional reference, "
                   "array/map of references, nested anonymous struct; plus the repository's validation.cue); the value dimension is decided by the solver. Collections <= 2 entries. "
-                  "The strict decoder half of the property (encoding/json leaf decoding) is outside the claim so far.",
+                  "Trusted: the contract given to encoding/json.Unmarshal for the leaf types (string, bool, intN with range and integrality, floats, slices, string-keyed maps, structs by tag, any, "
+                  "json.RawMessage); numeric text forms (exponents, float64 overflow) and multipleOf are outside.",
     "bounds": {"corpus": ["corpus/c08/constraints.json (Root, Child, inner struct)", "testdata/schemas/validation/validation.cue"], "collections": "<=2 entries", "ints": "full 64-bit range", "strings": "abstract: any string (rune/byte lengths symbolic)"},
     "prepare": _gen_prepare,
     "runs": _c08_runs,
